@@ -5,6 +5,7 @@ import PdbVerif.Model.Contacts
 import PdbVerif.Model.RmsdFast
 import PdbVerif.Model.RmsdSql
 import PdbVerif.Gen.Rmsd
+import PdbVerif.Driver.ExtSim
 
 namespace Driver.ModelE
 open Lean Driver Driver.ECommon Py Model Model.Rmsd
@@ -235,6 +236,6 @@ def op (name : String) (j : Json) : Except String (Option Json) := do
     let r ← metaModel (← jStr j "kind") j (← jLines b "dec") (← jLines b "ref") (← jLines v "dec") (← jLines v "ref")
       (← jRat j "cutoff") (← jBool j "check") (← jBool j "enforce")
     pure (some r)
-  | _ => pure none
+  | _ => (do match ← ExtSim.op name j with | some r => pure (some r) | none => pure none)
 
 end Driver.ModelE
